@@ -30,7 +30,7 @@ SPECS: Dict[str, Set[str]] = {
     "Alignment.__iter__": {"iter(self.unitary_alignments)"},
     "Alignment.num_annotators": {"len(self.unitary_alignments[0].n_tuple)"},
 }
-GENERATORS = ("Continuum.__iter__", "Continuum.iter_annotator", "Continuum.copy_flush")
+GENERATORS = ("Continuum.__iter__", "Continuum.iter_annotator", "Continuum.copy_flush", "Continuum.category_weights")
 
 
 def _single_return(f) -> Optional[ast.AST]:
@@ -104,6 +104,37 @@ def check_accessor(ctx: Ctx, qn: str, rule: str = "R-SUP") -> None:
                           key="copy-flush")
         else:
             ctx.ok(rule, f, news[0], "copy_flush returns a fresh continuum without annotators, units or categories (scalar settings only)", key="copy-flush")
+        return
+    if qn == "Continuum.category_weights":
+        # an ordered mapping label -> share of the units carrying it, keyed by the labels exactly as the units carry them (the shuffling tool draws
+        # new labels from its keys and looks a unit's own label up in it)
+        import re as _re
+        fixed = [k for c in ast.walk(f.node) if isinstance(c, ast.Call) for k in c.keywords if k.arg == "dtype" and isinstance(k.value, ast.Constant) and
+                 isinstance(k.value.value, str) and _re.fullmatch(r"[<>|=]?[USa]\d+", k.value.value)]
+        if fixed:
+            ctx.bad(rule, f, fixed[0].value, f"category_weights passes the labels through a fixed-width string buffer (dtype={fixed[0].value.value!r}): longer labels are cut, "
+                    f"so its keys are not the labels the units carry (labels sharing the prefix are merged, a unit's own label is not found)", key="category-weights")
+            return
+        rets = [r for r in walk_no_nested(f.node) if isinstance(r, ast.Return)]
+        W = norm(rets[0].value) if len(rets) == 1 and isinstance(rets[0].value, ast.Name) else None
+        wdef = [s_ for s_ in walk_no_nested(f.node) if isinstance(s_, ast.Assign) and W and norm(s_.targets[0]) == W]
+        loops = [L for L in walk_no_nested(f.node) if isinstance(L, ast.For) and norm(L.iter) in (sn, f"enumerate({sn})", f"enumerate({sn}, 1)", f"enumerate({sn}, start=1)")]
+        if not (W and len(wdef) == 1 and norm(wdef[0].value) == "SortedDict()" and len(loops) == 1):
+            ctx.undecided(rule, f, None, "category_weights is not `w = SortedDict(); for _, unit in self: count unit.annotation in w; normalise; return w` (not a verdict)",
+                          key="category-weights", construct="category_weights")
+            return
+        L = loops[0]
+        tnames = [x.id for x in ast.walk(L.target) if isinstance(x, ast.Name)]
+        u = tnames[-1] if tnames else None
+        keys = [t.slice for s_ in ast.walk(L) if isinstance(s_, (ast.Assign, ast.AugAssign)) for t in (s_.targets if isinstance(s_, ast.Assign) else [s_.target])
+                if isinstance(t, ast.Subscript) and norm(t.value) == W]
+        if not keys:
+            ctx.undecided(rule, f, L, "category_weights: no count stored under a key inside the loop over the units (not a verdict)", key="category-weights")
+            return
+        ctx.check(all(norm(expand_locals(f.node, k)) == f"{u}.annotation" for k in keys), rule, f, L,
+                  "category_weights is keyed by the labels exactly as the units carry them, in a sorted mapping",
+                  bad_detail=f"category_weights counts under `{norm(expand_locals(f.node, keys[0]))}`, not under the unit's label itself: its keys are not the labels the units carry",
+                  key="category-weights")
         return
     if qn == "Continuum.iter_annotator":
         loops = [n for n in walk_no_nested(f.node) if isinstance(n, ast.For)]
